@@ -364,16 +364,23 @@ func main() {
 	kit.Silence()
 	r := vh.NewRun("C10", "exploration")
 	n := r.Pick(300, 3000)
+	// (the evidence file keeps the first six samples: one of each scenario family comes first)
+	fidelity(r, kit.SSSE, r.Pick(150, 1500), 4)
+	regHistories(r, kit.SSSE, r.Pick(40, 400), 24)
 	runCalls(r, kit.SSSE, true, n, 1, 200)
 	runCalls(r, kit.SSSE, true, n, 16, 200)
 	runCalls(r, kit.SLSSE, true, n/2, 8, 200)
 	runCalls(r, kit.SSSE, false, n/3, 8, 100) // no handler registered
 	runCalls(r, kit.SJSON, true, n/3, 8, 100) // JSON answers
 	runCalls(r, kit.SLJSON, true, n/4, 8, 100)
-	regHistories(r, kit.SSSE, r.Pick(40, 400), 24)
+	fidelity(r, kit.SLSSE, r.Pick(80, 800), 4)
+	if r.Counter("fidelity_notifications_checked") == 0 {
+		r.Inconclusive("value-shape fidelity: not one call of the scenario conformed, nothing of it can be claimed to hold")
+	}
 	regHistories(r, kit.SLSSE, r.Pick(20, 200), 24)
 	eventIDs(r, kit.SSSE, r.Pick(150, 1500))
 	eventIDs(r, kit.SLSSE, r.Pick(80, 800))
-	r.Finish("a tool emits a seeded script of 0-200 progress / log / custom notifications (bursts without sleeps, sizes 0-256 KiB, _meta absent / empty / present) tagged (call nonce, seq); library client handlers append (logical clock, nonce, seq, params, _meta), the call's return is stamped with the same clock; per call: exact sequence equality, every handler stamp < return stamp, params and _meta equal, result intact; 1 / 8 / 16 concurrent calls on one client; stateful and stateless SSE answers; JSON answers and no-handler runs must drop the notifications and leave the result intact; a raw peer records every id: line per POST stream (pairwise distinct); registration histories: one client walks a seeded history of register / replace / unregister / register-again on the three methods between calls, every handler value carries a generation, and each call's notifications must have reached exactly the generation registered at that moment (none when unregistered). Distinct = (mode, script shape) that conformed.",
-		[]string{"handler timing is judged by a logical clock, not wall time"})
+	r.Finish("a tool emits a seeded script of 0-200 progress / log / custom notifications (bursts without sleeps, sizes 0-256 KiB, _meta absent / empty / present) tagged (call nonce, seq); library client handlers append (logical clock, nonce, seq, params, _meta), the call's return is stamped with the same clock; per call: exact sequence equality, every handler stamp < return stamp, params and _meta equal, result intact; 1 / 8 / 16 concurrent calls on one client; stateful and stateless SSE answers; JSON answers and no-handler runs must drop the notifications and leave the result intact; a raw peer records every id: line per POST stream (pairwise distinct); registration histories: one client walks a seeded history of register / replace / unregister / register-again on the three methods between calls, every handler value carries a generation, and each call's notifications must have reached exactly the generation registered at that moment (none when unregistered); value-shape fidelity: a second tool sends, through every entry point of the sender (SendCustomNotification, SendNotification of a Notification made by NewNotification / NewJSONRPCNotificationFromMap / by hand with _meta in the Meta field or among the additional fields, SendProgress, SendLogMessage), the full product entry x params shape x _meta shape (mcp.Meta, map[string]string/int/float64, structs, pointers, nil pointers, json.RawMessage, json.Number, json.Marshaler, typed nil / untyped nil / empty maps, nested maps and slices, float64 and int64 boundaries, unicode / control characters / invalid UTF-8, members named _meta / method / jsonrpc / id inside params, nil and empty params, unencodable values) and seeded plans that send the same map / Notification / _meta value again, and scramble the value in place right after the send returns; the tool encodes the plain Go value with encoding/json right before each send, the client handler re-encodes what it got, and per position method and params (incl. _meta) must be equal as JSON values, delivered before the return, result intact. Distinct = (mode, script shape) that conformed, (registration class) that conformed, (entry, params shape) / (entry, _meta shape) / (entry, aliasing mode) whose notifications all arrived as emitted.",
+		[]string{"handler timing is judged by a logical clock, not wall time",
+			"fidelity: numbers are compared with float64 semantics (what the client API hands to a handler); a top-level _meta that is null or {} counts as absent, params null as {}; progress / log notifications may carry extra members; a send that returns an error is not an emission; a send that changes the caller's own map is counted (fidelity_send_changed_callers_value), not judged"})
 }
